@@ -260,6 +260,12 @@ func (l *NativeArrayList[T]) RemoveAt(i int) {
 	*l = s[:len(s)-1]
 }
 
+// Remove all elements, the capacity stays the same.
+func (l *NativeArrayList[T]) Clear() {
+	clear(*l)
+	*l = (*l)[:0]
+}
+
 func (l *NativeArrayList[T]) LeftCapacity() int {
 	return l.Capacity() - l.Length()
 }
